@@ -18,3 +18,20 @@ pub open spec fn enc_record_h(version: u64, hash: BlobHash, payload: Seq<u8>) ->
 }
 /// segment of version v (v >= 1) for N ops per segment
 pub open spec fn seg(v: int, n: int) -> int { (v - 1) / n }
+// ---- independent reader of one framed record (documented format) ----
+pub enum EntryDec { End, Corrupt, Entry { version: u64, payload: Seq<u8>, rest: Seq<u8> } }
+pub open spec fn dec_entry(s: Seq<u8>) -> EntryDec {
+    if s.len() < 44 { EntryDec::End } else {
+        let v = de64(s.subrange(0, 8));
+        if v == 0 { EntryDec::End } else {
+            let n = de32(s.subrange(40, 44)) as int;
+            if n == 0 { EntryDec::End }
+            else if s.len() < 44 + n { EntryDec::Corrupt }
+            else {
+                let p = s.subrange(44, 44 + n);
+                if blake3_spec(p).0@ != s.subrange(8, 40) { EntryDec::Corrupt }
+                else { EntryDec::Entry { version: v, payload: p, rest: s.subrange(44 + n, s.len() as int) } }
+            }
+        }
+    }
+}
